@@ -29,7 +29,7 @@ H=$W/bin/harness; M=$V/lean/.lake/build/bin/asts-model
 CASE_TIMEOUT=${ENGINE_TIMEOUT:-900}
 
 # engine : generator size : enumerations   (cheapest first: a sweep stops at the first detecting engine)
-SPEC=${SPEC:-"annot:20000: events:40000:all syncmig:3000: podcontrol:20000: reconcile:20000: sync:6000: world:1500: ordinals:30000: defaults:6000: codec:4000: patch:3000: upgrade:20000:single watch:600:4"}
+SPEC=${SPEC:-"annot:20000: events:40000:all syncmig:3000: podcontrol:20000: reconcile:20000: sync:6000: world:1500: ordinals:30000: defaults:6000: codec:4000: hijack:2500:single patch:3000: upgrade:20000:single watch:600:4"}
 ENGINES=${ENGINES:-}
 
 out() { echo "$@" >> "$REPORT.tmp"; }
